@@ -665,7 +665,25 @@ static void runCodes(const Case &c) {
         char b[40]; snprintf(b, sizeof b, "%s%u:%x", i ? "," : "", cw[i].bits, cw[i].codeword);
         r += b;
       }
-      emit("CT %s %s", op[0].c_str(), r.c_str());
+      // the real encoder on words that put the longest codewords at every bit offset of a byte
+      string enc;
+      {
+        vector<int> order(256);
+        for (int i = 0; i < 256; i++) order[i] = i;
+        std::stable_sort(order.begin(), order.end(), [&](int a, int b) { return cw[a].bits > cw[b].bits; });
+        int shortest = order[255];
+        StatCoder coder(cw);
+        for (int k = 0; k < 12; k++) {
+          string w;
+          for (int t = 0; t < k; t++) w.push_back((char)shortest);
+          for (int t = 0; t < 6; t++) { w.push_back((char)order[t]); if (t % 2) w.push_back((char)order[(t + k) % 256]); }
+          uint encLen = 0, off = 0;
+          uchar *e = coder.encodeString((uchar *)w.data(), (uint)w.size(), &encLen, &off);
+          enc += (k ? ";" : "") + hex(w) + ":" + hex(e, encLen);
+          delete[] e;
+        }
+      }
+      emit("CT %s %s %s", op[0].c_str(), r.c_str(), enc.c_str());
       delete[] cw; delete ht; delete hf; delete[] occ;
     } else emit("ERR unknown-op");
   }
